@@ -37,6 +37,29 @@ type sinterp struct {
 	// nonCmp is set when it enters arithmetic, and the callers then refuse to conclude.
 	input  map[ssa.Value]bool
 	nonCmp bool
+	depth  int
+}
+
+// runToReturn interprets fn from its entry with the environment already set for its parameters.
+func (s *sinterp) runToReturn(fn *ssa.Function) (sval, bool) {
+	if len(fn.Blocks) == 0 {
+		return sval{}, false
+	}
+	blk := fn.Blocks[0]
+	for steps := 0; steps < 300; steps++ {
+		next, ret, ok := s.step(blk, 0)
+		if !ok {
+			return sval{}, false
+		}
+		if ret != nil {
+			if len(ret.Results) != 1 {
+				return sval{}, false
+			}
+			return s.eval(ret.Results[0])
+		}
+		blk = next
+	}
+	return sval{}, false
 }
 
 func (s *sinterp) markInput(v ssa.Value) {
@@ -427,6 +450,23 @@ func (s *sinterp) step(blk *ssa.BasicBlock, start int) (next *ssa.BasicBlock, re
 						s.env[x] = svFloat(math.Floor(args[0].f))
 					case "math.Trunc":
 						s.env[x] = svFloat(math.Trunc(args[0].f))
+					default:
+						// a pure helper of the module (isFinite, isdigit, ...): interpret it too
+						if cal.Blocks != nil && s.depth < 3 && len(args) == len(cal.Params) {
+							sub := &sinterp{env: map[ssa.Value]sval{}, depth: s.depth + 1}
+							for i, p := range cal.Params {
+								sub.env[p] = args[i]
+								if s.input[x.Call.Args[i]] {
+									sub.markInput(p)
+								}
+							}
+							if r, ok := sub.runToReturn(cal); ok {
+								s.env[x] = r
+							}
+							if sub.nonCmp {
+								s.nonCmp = true
+							}
+						}
 					}
 				}
 			}
